@@ -30,6 +30,24 @@ def obs (f : Forest) (c : Coll) : Sexp :=
          natList (c.getAllNodes f).items, natList (sortNat ((c.getAllNodeUids f).eraseDups)),
          bits (u.map (c.containsUid f))]
 
+def toAttr? : Sexp → Option (Str × Option Str)
+  | .list [n, v] => do
+    let n ← toStr? n
+    let v ← toOptStr? v
+    pure (n, v)
+  | _ => none
+
+def toProbe? : Sexp → Option (Str × List (Str × Option Str))
+  | .list (n :: as) => do
+    let n ← toStr? n
+    let as ← as.mapM toAttr?
+    pure (n, as)
+  | _ => none
+
+/-- `(tageq probe*)`: the matrix of `isTagEqual` over the probes, row by row -/
+def tagEqMatrix (ps : List (Str × List (Str × Option Str))) : Sexp :=
+  .list (ps.map (fun p => bits (ps.map (fun q => isTagEqual p.1 p.2 q.1 q.2))))
+
 def stepOp (c : Coll) : Sexp → Option (Option Coll)   -- outer none = bad op
   | .list (.atom "ctor" :: xs) => (nats xs).map (fun xs => some (Coll.ofList xs))
   | .list (.atom "add" :: xs) => (nats xs).map (fun xs => some (c.add xs))
@@ -41,6 +59,10 @@ def stepOp (c : Coll) : Sexp → Option (Option Coll)   -- outer none = bad op
 
 def loop (f : Forest) : Coll → List Sexp → List Sexp → List Sexp
   | _, [], acc => acc.reverse
+  | c, .list (.atom "tageq" :: ps) :: ops, acc =>
+    match ps.mapM toProbe? with
+    | some ps => loop f c ops (tagEqMatrix ps :: acc)
+    | none => (sym "bad-op" :: acc).reverse
   | c, op :: ops, acc =>
     match stepOp c op with
     | none => (sym "bad-op" :: acc).reverse
